@@ -201,7 +201,7 @@ GenStd(c) ==                                        \* osu, taiko, mania without
 GenCatch(c) ==                                      \* fruits / droplets / misses / combo; tiny without accuracy
   LET F == c.sh.a  D == c.sh.b  T == c.sh.c
       misses == Min(Or0(c.p.miss), F + D)
-      combo  == IF Has(c.p.combo) THEN c.p.combo ELSE F + D - misses        \* (a provided combo is not clamped)
+      combo  == IF Has(c.p.combo) THEN Min(c.p.combo, F + D - misses) ELSE F + D - misses
       fd == CASE Has(c.p.n300) /\ Has(c.p.n100) ->
                    LET nrem == SatSub(F + D, c.p.n300 + c.p.n100 + misses)
                        newd == Min(nrem, SatSub(D, c.p.n100))
